@@ -27,9 +27,12 @@ on every run (`RR.Gen.rx1200Chain`, …).
 namespace RR.Props.C20
 open RR RR.Blk RR.Chain
 
-/-- The documented 1200-baud chain, as the example source has it now. -/
+/-- The documented 1200-baud chain, as the example source has it now (the translator inlines the example's
+own helper functions, so that moving blocks into or out of a helper does not change the list: the first four
+blocks are the SDR input path of `get_input`, not used when the input is audio). -/
 theorem c20_chain_1200_as_documented :
-    Gen.rx1200Chain = ["Hilbert", "QuadratureDemod", "FftFilterFloat", "add_const", "SymbolSync",
+    Gen.rx1200Chain = ["FftFilter", "RationalResampler", "FastFM", "QuadratureDemod",
+      "Hilbert", "QuadratureDemod", "FftFilterFloat", "add_const", "SymbolSync",
       "BinarySlicer", "NrziDecode", "HdlcDeframer"] ∧
     Gen.rx1200HdlcMin = 10 ∧ Gen.rx1200HdlcMax = 1500 ∧ Gen.rx1200HilbertTaps = 65 := by decide
 
